@@ -107,6 +107,10 @@ pub struct Case {
     /// while everything else is only logged; the oracle then judges the destination rule alone
     #[serde(default)]
     pub carve_out: bool,
+    /// allowlist edit history before the request (world::allowlist_edit; 0 = none): afterwards the
+    /// plainly allowlisted address is no destination any more
+    #[serde(default)]
+    pub allow_edit: u8,
 }
 
 fn dest_strat() -> impl Strategy<Value = Dest> {
@@ -219,8 +223,8 @@ impl Prop for C09 {
     }
     fn strategy(&self, _tier: Tier) -> BoxedStrategy<Case> {
         let delay = prop_oneof![Just(4u16), Just(6u16), Just(144u16), Just(2016u16), 4u16..2017];
-        (any::<bool>(), any::<bool>(), delay.clone(), delay, prop_oneof![1 => sweep_strat(), 1 => htlc_strat()], prop::bool::weighted(0.12))
-            .prop_map(|(anchors, outbound, holder_delay, cp_delay, req, carve_out)| Case { anchors, outbound, holder_delay, cp_delay, carve_out: carve_out && matches!(req, Req::Sweep { .. }), req })
+        (any::<bool>(), any::<bool>(), delay.clone(), delay, prop_oneof![1 => sweep_strat(), 1 => htlc_strat()], prop::bool::weighted(0.12), prop_oneof![5 => Just(0u8), 2 => 1u8..7])
+            .prop_map(|(anchors, outbound, holder_delay, cp_delay, req, carve_out, allow_edit)| Case { anchors, outbound, holder_delay, cp_delay, carve_out: carve_out && matches!(req, Req::Sweep { .. }), allow_edit: if matches!(req, Req::Sweep { .. }) { allow_edit } else { 0 }, req })
             .boxed()
     }
 
@@ -258,6 +262,12 @@ impl Prop for C09 {
         let axpub = Xpub::from_priv(&secp, &Xpriv::new_master(net, &[7u8; 32]).unwrap());
         w.node.add_allowlist(&[format!("address:{}", allow_addr), format!("xpub:{}", axpub)]).expect("allowlist");
         let foreign = Address::p2wpkh(&CompressedPublicKey(PublicKey::from_secret_key(&secp, &SecretKey::from_slice(&[44u8; 32]).unwrap())), net).script_pubkey();
+        let mut allowlisted_now = true;
+        if case.allow_edit != 0 {
+            let absent = Address::p2wpkh(&CompressedPublicKey(PublicKey::from_secret_key(&secp, &SecretKey::from_slice(&[0x3c; 32]).unwrap())), net);
+            allowlisted_now = crate::world::allowlist_edit(&mut w, &format!("address:{}", allow_addr), &format!("address:{}", absent), case.allow_edit);
+            st.class(format!("allowlist_edit:{}", case.allow_edit % 7));
+        }
         let chan = &w.chans[ci];
         let features = chan.setup.features();
         let flag = chan.htlc_sighash_type();
@@ -273,7 +283,7 @@ impl Prop for C09 {
                     let (spk, ok) = match d {
                         Dest::Wallet(t) => (wallet_scripts(pidx)[*t as usize % 3].clone(), !*path_empty),
                         Dest::WalletOtherIndex => (wallet_scripts(pidx + 1)[0].clone(), false),
-                        Dest::Allowlisted => (allow_addr.script_pubkey(), true),
+                        Dest::Allowlisted => (allow_addr.script_pubkey(), allowlisted_now),
                         Dest::XpubDerived => {
                             let pk = CompressedPublicKey(axpub.derive_pub(&secp, &path_of(pidx)).unwrap().public_key);
                             (Address::p2wpkh(&pk, net).script_pubkey(), !*path_empty)
